@@ -142,6 +142,23 @@ def run_isolated(mod, case, timeout=900):
     return pickle.loads(b''.join(chunks))
 
 
+def run_case_process(mod, case):
+    """run_isolated with the property's own notion of a hang: where the
+    property promises prompt termination (C06) a case process that exceeds
+    the wall bound is a violation, not a harness error."""
+    timeout = getattr(mod, 'CASE_TIMEOUT', 900)
+    status, res = run_isolated(mod, case, timeout=timeout)
+    tag = getattr(mod, 'TIMEOUT_IS_VIOLATION', None)
+    if status == 'err' and tag and 'exceeded' in str(res):
+        res = {'viol': {'tag': tag, 'detail': {
+            'why': f'the case did not finish within {timeout}s of wall time '
+                   '(typical: milliseconds)'}},
+               'log': [['timeout', timeout]], 'stats': {}, 'cover': [],
+               'sig': None, 'digest': 'timeout'}
+        return 'ok', res
+    return status, res
+
+
 # --------------------------------------------------------------------------
 # worker side
 # --------------------------------------------------------------------------
@@ -186,7 +203,7 @@ def _chunk_task(pid, tier, seeds, want_digests):
             try:
                 case = mod.gen_case(seed, tier, index) if uses_index \
                     else mod.gen_case(seed, tier)
-                status, res = run_isolated(mod, case)
+                status, res = run_case_process(mod, case)
                 if status != 'ok':
                     agg['errors'].append({'seed': seed, 'error': res})
                     continue
@@ -239,7 +256,7 @@ def _exec_task(pid, case):
     if getattr(mod, 'USES_CHILD', False):
         from .restorer import Child
         Child.get()
-    status, res = run_isolated(mod, case)
+    status, res = run_case_process(mod, case)
     if status != 'ok':
         raise RuntimeError(res)
     return res
